@@ -305,6 +305,38 @@ impl PublicBatchProver {
     }
 }
 
+/// Verification hooks (off by default): read access to a committed prover's
+/// witness and a re-arm so one prover can be committed repeatedly by a monitor.
+#[cfg(feature = "verif-hooks")]
+impl PublicBatchProver {
+    pub fn verif_targets(&self) -> Option<PublicBatchCircuitTargets> {
+        self.targets.clone()
+    }
+
+    pub fn verif_partial_witness(&self) -> &PartialWitness<F> {
+        &self.partial_witness
+    }
+
+    pub fn verif_dummy_template(&self) -> &ProofWithPublicInputs<F, C, D> {
+        &self.dummy_proof_template
+    }
+
+    pub fn verif_rearm(&mut self, targets: PublicBatchCircuitTargets) {
+        self.partial_witness = PartialWitness::new();
+        self.targets = Some(targets);
+    }
+}
+
+/// Verification hook (off by default): public entry to the crate-private preflight.
+#[cfg(feature = "verif-hooks")]
+pub fn verif_preflight_private_batch_proofs(
+    proofs: &[ProofWithPublicInputs<F, C, D>],
+    num_private_batch_proofs: usize,
+    private_batch_verifier: &VerifierCircuitData<F, C, D>,
+) -> Result<()> {
+    preflight_private_batch_proofs(proofs, num_private_batch_proofs, private_batch_verifier)
+}
+
 /// Admission checks for a caller-supplied private-batch proof vector: count
 /// bounds (non-empty, at most `num_private_batch_proofs`), public-input
 /// shape, cryptographic verification against the pinned private-batch
